@@ -12,7 +12,7 @@ export const id = 'C11';
 const LOGGING_ATTRS = ['identUnbound', 'member', 'call', 'template', 'arrow', 'objDyn', 'arrDyn', 'cond', 'spreadIdent', 'spreadCall', 'spreadObjLit',
   'classExpr', 'classArr', 'styleExpr', 'onOther', 'onUpdate', 'onObj', 'nativeOnObj', 'strPlain', 'valueless', 'classStr', 'key', 'ref', 'jsxElBraced'];
 const TAGS = ['div', 'importDefault', 'unboundPascal', 'member1', 'KeepAlive', 'Fragment', 'pattern'].map((f) => TAG_FORMS.find((t) => t.form === f || t.name === f));
-const KID_SHAPES = ['none', 'identUnbound', 'call', 'memberExpr', 'cond', 'mixed1', 'mixed2', 'spread', 'spreadCall', 'nestedComp', 'element', 'text', 'arrow', 'object'];
+const KID_SHAPES = ['none', 'identUnbound', 'call', 'memberExpr', 'cond', 'mixed1', 'mixed2', 'spread', 'spreadCall', 'nestedComp', 'element', 'text', 'arrow', 'object', 'optMember', 'optMemberDeep', 'template', 'binary', 'newExpr', 'arrayLit', 'logicalOr', 'parenCall', 'awaitLike'];
 const KID_KINDS = ['vnode', 'string', 'slots', 'slotfn', 'array'];
 
 const PROBE_RE = /\b([gfm]\d+)\b/g;
